@@ -645,6 +645,7 @@ def _from_residual(M, fr, n, a):
                 return err(M.invoke(fr, '<%s as std::convert::From<%s>>::from' % (tgt, src), [v.f[0]]))
     return v
 def disc_of(M, o):
+    if not isinstance(o, EnumV): raise Unsupported('discriminant of %r' % (o,))
     d = simp(o.disc)
     if is_sym(d):
         nv = len(M.prog.enums.get(o.name, [0, 1]))
